@@ -439,6 +439,67 @@ def reuse_shard(kind, sign, mode, delay_cfg, keepshape, between="clear"):
     return tally
 
 
+def shared_neuron_shard(kind, mode, T):
+    """one trainer, TWO cells of one Biclique layer that end on the same neuron group; the second cell overrides lr_pre (twice the
+    default) - equal post-side hyper-parameters, different pre-side ones. Every history of (pre_a, pre_b, post) rides the batch: each
+    connection's accumulated change equals its own cell's pair sums (a monitor pooled across the two cells may only be shared if it
+    really computes the same thing for both)."""
+    from inferno.neural import Biclique, LinearDense, DeltaCurrent
+    from inferno.extra import ExactNeuron
+    tally = Tally()
+    dt, gamma = 1.0, 0.5
+    hs = all_histories(T, 3)
+    B = len(hs)
+    three = kind in ("mstdp", "mstdpet")
+    case = {"trainer": kind, "trace_mode": mode, "part": "two cells sharing a neuron group, lr_pre overridden on the second", "T": T, "batch=histories": B}
+    tally.add("evaluations")
+    spec = Cellspec("dense", 1, 1)
+    sp, sn = SIGNS["hebbian"]
+    try:
+        def conn():
+            c = LinearDense((1,), (1,), dt, synapse=DeltaCurrent.partialconstructor(spike_charge=dt), batch_size=B, weight_init=lambda w: torch.full_like(w, 0.5))
+            c.updater = c.defaultupdater()
+            return c
+        layer = Biclique([("a", conn()), ("b", conn())], [("x", ExactNeuron((1,), dt, rest_v=-60.0, thresh_v=-45.0, batch_size=B))])
+        tr = make_trainer(kind, "hebbian", mode, False, identity_reduction)
+        key = "lr_pre_pair" if kind == "triplet" else "lr_pre"
+        tr.register_cell("a", layer.get_cell("a", "x"))
+        tr.register_cell("b", layer.get_cell("b", "x"), **{key: 2 * sn * LRN})
+        for t in range(T):
+            xa = torch.tensor([[h[t][0]] for h in hs], dtype=torch.bool)
+            xb = torch.tensor([[h[t][1]] for h in hs], dtype=torch.bool)
+            y = torch.tensor([[h[t][2]] for h in hs], dtype=torch.bool)
+            layer({"a": (xa,), "b": (xb,)}, neuron_kwargs={"x": {"override": y}})
+            if three:
+                tr(float(signal_for(t, 1, "stepalt")[0]), gamma)
+            else:
+                tr()
+    except Exception as ex:
+        tally.violation(f"exception:shared-neuron:{kind}:{type(ex).__name__}", case, f"{type(ex).__name__}: {ex}", None, repr(ex))
+        return tally
+    post = torch.stack([spec.post_ref([[h[t][2]] for h in hs]) for t in range(T)], 0)
+    sigs = torch.stack([signal_for(t, B, "stepalt") for t in range(T)], 0)
+    for ci, (cname, scale_pre) in enumerate((("a", 1.0), ("b", 2.0))):
+        pre_syn = torch.stack([spec.pre_syn([[h[t][ci]] for h in hs]) for t in range(T)], 0)
+        rp, rn = reference(kind, "hebbian", mode, dt, pre_syn, post, spec.delays_to_K(None, dt), sigs, gamma)
+        if kind == "triplet":
+            continue  # the triplet pre-side term is not linear in lr_pre_pair alone (slow traces): only the pair rules are compared
+        exp = spec.to_weight_space((rp + scale_pre * rn).sum(0))
+        acc = layer.get_connection(cname).updater.weight
+        z = torch.zeros(B, *spec.wshape, dtype=F64)
+        got = (z if acc.pos is None else acc.pos.to(F64)) - (z if acc.neg is None else acc.neg.to(F64))
+        diff = (got - exp).abs().reshape(B, -1).amax(1)
+        bi = (diff > 1e-5).nonzero().reshape(-1)
+        if len(bi):
+            b = int(bi[0])
+            tally.violation(f"shared-neuron:{kind}:{mode}:cell-{cname}", {**case, "history(pre_a,pre_b,post)": hs[b]},
+                            f"cell '{cname}' (lr_pre x{scale_pre}) accumulated {got[b].reshape(-1).tolist()} but its own rule gives {exp[b].reshape(-1).tolist()}",
+                            exp[b].tolist(), got[b].tolist())
+    tally.mark("nontrivial", ("shared-neuron", kind, mode, T))
+    tally.add("histories", B)
+    return tally
+
+
 def multicell_shard(kind, sign, T):
     """one trainer, TWO cells (two layers) with different histories; for the three-factor rules a per-sample signal TENSOR
     (batch of one) with scale != 1: every cell's update equals its own single-cell reference"""
@@ -527,6 +588,9 @@ def run(rep):
             jobs.append((applied_shard, (kind, sign, 3 if quick else 4)))
             if kind in ("stdp", "mstdp"):
                 jobs.append((applied_shard, (kind, sign, 3 if quick else 4, True)))
+        if kind != "triplet":
+            for mode in ("cumulative", "nearest"):
+                jobs.append((shared_neuron_shard, (kind, mode, 3)))
         for mode in ("cumulative", "nearest"):
             for dcfg in (None, ("frozen", 1), ("frozen", 2), ("delayed", 1), ("delayed", 2)):
                 for keepshape in (False, True):
